@@ -104,7 +104,7 @@ def model_step(op, L, Dd, V=None):
         try:
             exp = L.pop(lkey(i))
         except IndexError:
-            experr = 'PE'
+            experr = 'PE' if not L else 'ANY'      # the statement names popping an *empty* list; pop(i) out of range: some error
     elif name == 'insert':
         i, v = op[1], op[2]
         src = f'l.insert({lit(i)}, {lit(v)})'
@@ -114,6 +114,8 @@ def model_step(op, L, Dd, V=None):
         src = f'l.remove({lit(v)})'
         if v in L:
             L.remove(v)
+        else:
+            experr = 'NOOP_OR_ANY'
     elif name == 'readl':
         i = op[1]
         src = f'l[{lit(i)}]'
@@ -150,10 +152,8 @@ def model_step(op, L, Dd, V=None):
         boundary = kk in (len(L) - 1, len(L), -len(L), -len(L) - 1)
         if -len(L) <= kk < len(L):
             del L[kk]
-        elif kk >= len(L):
-            experr = 'NOOP'
         else:
-            experr = 'NOOP_OR_ANY'
+            experr = 'NOOP_OR_ANY'         # deleting an out-of-range position: a no-op or some error, nothing changes
     elif name == 'index_of':
         v = op[1]
         src = f'l.index_of({lit(v)})'
@@ -189,7 +189,10 @@ def model_step(op, L, Dd, V=None):
     elif name == 'deld':
         k = op[1]
         src = f'del d[{lit(k)}]'
-        Dd.pop(dkey(k), None)
+        if dkey(k) in Dd:
+            Dd.pop(dkey(k))
+        else:
+            experr = 'NOOP_OR_ANY'
     elif name == 'get':
         k = op[1]
         src = f'd.get({lit(k)})'
@@ -217,7 +220,10 @@ def model_step(op, L, Dd, V=None):
     elif name == 'removed':
         k = op[1]
         src = f'd.remove({lit(k)})'
-        Dd.pop(k, None)
+        if k in Dd:
+            Dd.pop(k)
+        else:
+            experr = 'NOOP_OR_ANY'
     elif name == 'nestw':
         # d[k] = v (v = [[1, ...]] lives in names), then v is mutated through its own name, then d[k] is read
         k = op[1]
